@@ -5,7 +5,8 @@
 (*   kind  "dns" | "email" | "ip" | "uri"                                    *)
 (*   lab   the labels of the host part, lower-cased (dns: the whole name;    *)
 (*         email: the domain; ip: the four octets as strings)                *)
-(*   lk    per label: "lit" (no '*'), "wild" (exactly "*"), "part" ('*'      *)
+(*   lk    per label: "lit" (no '*'), "odd" (no DNS label: contains '@'),    *)
+(*         "wild" (exactly "*"), "part" ('*'                                 *)
 (*         mixed with other characters)                                      *)
 (*   loc   local part of an e-mail address, verbatim ("" otherwise)          *)
 (*   bad   contains NUL / control characters / is not a well-formed name     *)
@@ -24,10 +25,11 @@ Lower(s) == s      \* local parts are compared verbatim here; the case-insensiti
 DnsEq(p, x) ==
     /\ ~p.bad /\ ~x.bad
     /\ Len(p.lab) = Len(x.lab) /\ Len(p.lab) >= 1
-    /\ \A i \in 1..Len(x.lab) : x.lk[i] = "lit" /\ x.lab[i] # ""          \* an expected host has no wildcard and no empty label
+    /\ \A i \in 1..Len(x.lab) : x.lk[i] \in {"lit", "odd"} /\ x.lab[i] # "" \* an expected host has no wildcard and no empty label
     /\ \A i \in 2..Len(p.lab) : p.lk[i] = "lit" /\ p.lab[i] = x.lab[i]     \* wildcard only in the left-most label
     /\ \/ p.lk[1] = "lit" /\ p.lab[1] = x.lab[1]
-       \/ p.lk[1] = "wild" /\ Len(p.lab) >= 2                              \* "*" stands for exactly one (non-empty) label
+       \/ p.lk[1] = "wild" /\ Len(p.lab) >= 2 /\ x.lk[1] = "lit"           \* "*" stands for exactly one (non-empty) DNS label
+                                                                            \* ("odd": e.g. "user@mail" is not one)
 
 EmailEq(p, x, ci) ==
     /\ ~p.bad /\ ~x.bad
